@@ -44,6 +44,7 @@ Covers = z3.Function("Covers", T.Net, T.SpaceS, SigS, B, LSs, B)
 IsSDR = z3.Function("IsSDR", T.Net, T.SpaceS, SigS, B, LSs, B)
 SetsOf = z3.Function("SetsOf", T.Net, T.SpaceS, LSs, M.LV.sort(), B)
 _ll = z3.Const("l!cc", LSs)
+_lv = z3.Const("lv!cc", M.LV.sort())
 AX_CACHE = [
     # definition of CacheOK: every cached field that is present is correct for the current successor signature
     z3.ForAll([_N, _S, _sg, _b, _c1, _c2, _c3], CacheOK(_N, _S, _sg, _b, _c1, _c2, _c3) == z3.And(
@@ -58,6 +59,8 @@ AX_CACHE = [
               patterns=[Covers(_N, _S, nosucc, _b, _ll)]),
     z3.ForAll([_N, _S, _sg, _b, _ll], z3.Implies(IsSDR(_N, _S, _sg, _b, _ll), Covers(_N, _S, _sg, _b, _ll)),
               patterns=[IsSDR(_N, _S, _sg, _b, _ll)]),
+    z3.ForAll([_N, _S, _ll, _lv], z3.Implies(z3.And(M.LS.len(_ll) == 0, M.LV.len(_lv) == 0), SetsOf(_N, _S, _ll, _lv)),
+              patterns=[SetsOf(_N, _S, _ll, _lv)]),
 ]
 
 
